@@ -47,6 +47,8 @@ def range_consts(b, agg):
     for nm, o in zip(agg.get('fields', []), agg['ops']):
         v = op_const_bits(o)
         if v is None:
+            v = b.const_eval(o)
+        if v is None:
             ol = op_local(o)
             if ol is not None:
                 for x in b.trace_local(ol):
@@ -95,6 +97,8 @@ VIEW_SAME = ('try_into', 'try_from', 'unwrap', 'expect', 'as_ref', 'as_mut', 'as
 
 def _const_of(b, op):
     v = op_const_bits(op)
+    if v is None:
+        v = b.const_eval(op)        # `K + 1`, `END - START` over named constants
     if v is None:
         ol = op_local(op)
         if ol is not None:
@@ -189,12 +193,21 @@ def slice_view(b, l, depth=0):
                 if o['k'] not in ('copy', 'move'):
                     return None
                 pl = o['place']
+                # `let b0 = data[i]; [b0, ..]`: the element read into a temporary first
+                hops_ = 0
+                while not pl['p'] and hops_ < 4:
+                    d_ = b.single_def(pl['l'])
+                    if d_ and d_[1] == 'assign' and not d_[2]['place']['p'] and d_[2]['rv']['k'] == 'use' and d_[2]['rv']['op']['k'] in ('copy', 'move'):
+                        pl = d_[2]['rv']['op']['place']
+                        hops_ += 1
+                    else:
+                        break
                 ie = [e for e in pl['p'] if e['k'] in ('index', 'cindex')]
                 if len(ie) != 1:
                     return None
                 if ie[0]['k'] == 'index':
-                    v = None
-                    for x in b.trace_local(ie[0]['local']):
+                    v = b.const_eval({'k': 'copy', 'place': {'l': ie[0]['local'], 'p': []}})
+                    for x in (b.trace_local(ie[0]['local']) if v is None else []):
                         if x[0] == 'const' and op_const_bits(x[2]) is not None:
                             v = op_const_bits(x[2])
                 else:
@@ -442,13 +455,16 @@ def cd3(ctx):
     if not ws or not rs:
         ctx.missing('codec-bodies', 'no to_le_bytes / from_le_bytes bodies found')
         return
+    def by_offset(lay):
+        # the order that matters is the order of the BYTES; decoding `len` before `checksum` is the same layout
+        return sorted(lay, key=lambda x: x[2][0]) if lay and all(x[2] is not None for x in lay) else lay
     wsig = {}
     for b in ws:
-        lay = writer_layout(b)
+        lay = by_offset(writer_layout(b))
         wsig[b.path] = (tuple((t, e) for (t, e, _s, _c) in lay), lay, b)
     rsig = {}
     for b in rs:
-        lay = reader_layout(b)
+        lay = by_offset(reader_layout(b))
         rsig[b.path] = (tuple((t, e) for (t, e, _s, _c) in lay), lay, b)
     used_r = set()
     for wp, (sig, lay, b) in sorted(wsig.items()):
@@ -497,7 +513,25 @@ def arm_regions(b, block):
 
 
 def fn_table_enum_to_bool(ctx, b):
-    """for `fn(&self) -> bool` that switches on discriminant(*self): {variant: bool}"""
+    """for `fn(&self) -> bool` over a fieldless enum: {variant: bool}, by evaluating the body on each variant
+    (absint: any spelling -- match, matches!, !matches!, ==, helper calls); the syntactic reading is the fall-back"""
+    from absint import AbsInt, Path, UNK
+    ty = b.local_ty(1).replace('&', '').strip() if b.arg_count >= 1 else ''
+    if ty in ctx.f.adts and all(not v['fields'] for v in ctx.f.adts[ty]['variants']):
+        ai = AbsInt(ctx)
+        tab = {}
+        for v in ctx.f.all_variants(ty):
+            outs = ai.run(b, Path(b.points[b.entry][0], {1: ('refv', ('adt', ty, v, ()))}, {}, [], {}))
+            vals = {repr(p_.env.get(0, UNK)) for (k_, p_) in outs if k_ == 'return'}
+            rets = [p_.env.get(0, UNK) for (k_, p_) in outs if k_ == 'return']
+            if len(vals) == 1 and rets and isinstance(rets[0], tuple) and rets[0][0] == 'i' and not ai.exhausted:
+                tab[v] = bool(rets[0][1])
+        if len(tab) == len(ctx.f.all_variants(ty)):
+            return tab
+    return _fn_table_enum_to_bool_syntactic(ctx, b)
+
+
+def _fn_table_enum_to_bool_syntactic(ctx, b):
     tab = {}
     for (bi, pl, adt, edges) in b.discr_switches():
         if pl['l'] != 1:
@@ -898,6 +932,38 @@ def expr_leaves(b, op, depth=0, seen=None):
     return out
 
 
+def bound_comparisons(ctx, b, const_suffix):
+    """Comparisons `x OP bound` in body b where exactly one side is built from the named constant `const_suffix`:
+    the bare constant, `K - t` (a term moved to the other side: `len > K - cursor` is `len + cursor > K`, same operator),
+    or the result of an argument-less getter whose return value is such an expression (`num_bytes_to_end_of_block()`).
+    Returns [dict(point, op, x, bound, res)] with op normalised to read `x OP bound`."""
+    from core import op_const_named
+    swap = {'Lt': 'Gt', 'Gt': 'Lt', 'Le': 'Ge', 'Ge': 'Le'}
+    def has_const(body, op, depth=0):
+        for lf in expr_leaves(body, op):
+            if lf[0] == 'const' and (op_const_named(lf[1]) or '').endswith(const_suffix):
+                return True
+            if lf[0] == 'call' and depth < 2 and lf[1].node is not None and lf[1].node in ctx.f.bodies:
+                cb = ctx.f.bodies[lf[1].node]
+                if cb.arg_count <= 1 and cb.ret_ty in ('usize', 'u64') and len(cb.blocks) < 12 and not cb.loops():
+                    if has_const(cb, {'k': 'copy', 'place': {'l': 0, 'p': []}}, depth + 1):
+                        return True
+        return False
+    out = []
+    for bi, blk in enumerate(b.blocks):
+        if not b.live[bi]:
+            continue
+        for si, st in enumerate(blk['stmts']):
+            if st['k'] == 'assign' and st['rv']['k'] == 'binop' and st['rv']['op'] in swap and not st['place']['p']:
+                a, bb = st['rv']['a'], st['rv']['b']
+                ca, cb_ = has_const(b, a), has_const(b, bb)
+                if cb_ and not ca:
+                    out.append({'point': b.pstart[bi] + si, 'op': st['rv']['op'], 'x': a, 'bound': bb, 'res': st['place']['l'], 'via': None})
+                elif ca and not cb_:
+                    out.append({'point': b.pstart[bi] + si, 'op': swap[st['rv']['op']], 'x': bb, 'bound': a, 'res': st['place']['l'], 'via': None})
+    return out
+
+
 @rule('TAINT2', ['C10', 'C08'], floor=1, template='guard-and-use-same-version')
 def taint2(ctx):
     """The bounds check of a frame and the slicing of its payload read the same cursor value."""
@@ -1118,7 +1184,7 @@ def cd9(ctx):
     for b in ctx.f.bodies.values():
         if b.generic_dup() or not b.path.startswith('frame::reader::FrameReader'):
             continue
-        for c in const_comparisons(ctx, b, 'BLOCK_NUM_BYTES'):
+        for c in bound_comparisons(ctx, b, 'BLOCK_NUM_BYTES'):
             lv = expr_leaves(b, c['x'])
             has_len = any(x[0] == 'call' and x[1].node is not None and ctx.f.bodies[x[1].node].path.startswith('frame::header::Header::') for x in lv)
             if not has_len:
@@ -1448,6 +1514,23 @@ def frame_protocol(ctx):
             continue
         ai = AbsInt(ctx)
         obs, after = {}, {}
+        def on_binop(body, rv, va, vb):
+            # "nothing remains after this frame" spelt on the lengths BEFORE the cut: the frame takes
+            # min(max_writable, len) bytes, so the rest is empty exactly when len <= max_writable
+            if body is not b or rv['op'] not in ('Le', 'Ge', 'Lt', 'Gt'):
+                return None
+            for (x, y, ox, oy, flip) in ((va, vb, rv['a'], rv['b'], False), (vb, va, rv['b'], rv['a'], True)):
+                if isinstance(x, tuple) and x and x[0] == 'len' and not (isinstance(y, tuple) and y and y[0] in ('i', 'len')):
+                    lv = expr_leaves(b, oy)
+                    if not any(l_[0] == 'call' and l_[1].path.endswith('max_writable_frame_length') for l_ in lv):
+                        return None
+                    op = {'Lt': 'Gt', 'Gt': 'Lt', 'Le': 'Ge', 'Ge': 'Le'}[rv['op']] if flip else rv['op']
+                    if op == 'Le':
+                        return ('cond', 'empty:%s' % (x[1],), True)
+                    if op == 'Gt':
+                        return ('cond', 'empty:%s' % (x[1],), False)
+            return None
+        ai.on_binop = on_binop
         def on_call(p, cs, args):
             nm = cs.name
             if re.search(r'<impl \[u8\]>::is_empty$', nm) or re.search(r'<impl \[u8\]>::len$', nm):
